@@ -229,7 +229,7 @@ Proof.
   assert (NBC : forall s1 s2, sec_read ([223; 91; 3] ++ enc32 false (zlen cols) ++ CT) = Ok (3, s1) -> read_int32 false s1 = Ok (zlen cols, s2) -> colsf_nobit sub (Z.to_nat (zlen cols)) 0 s2).
   { intros s1 s2 A R. rewrite E0 in A. assert (Y : s1 = enc32 false (zlen cols) ++ CT) by congruence. subst s1. rewrite (E32 CT) in R. assert (Y : s2 = CT) by congruence. subst s2. rewrite Hlen. exact CN. }
   destruct (ts_read_sub_source rf rp fo po k _ m h tmb (zlen cols) sub Hb ltac:(lia) Htm Fl NBC) as (f0 & F). exists f0. intros f Hf.
-  destruct (F f Hf) as (st & fin & C & _ & _ & Out). exists st, fin. split; [exact C|].
+  destruct (F f Hf) as (st & fin & C & _ & _ & Out & _). exists st, fin. split; [exact C|].
   destruct Out as [(E & Ho & (s1 & s2 & s' & A1 & A2 & A3 & A4) & _)|(Hng & Ho & Hj)]; [|right; split; [exact Hng|split; [exact Ho|exact Hj]]].
   left. split; [exact E|]. split; [|exact Ho].
   rewrite E0 in A1. assert (Y : s1 = enc32 false (zlen cols) ++ CT) by congruence. subst s1. rewrite (E32 CT) in A2. assert (Y : s2 = CT) by congruence. subst s2.
